@@ -7,6 +7,7 @@ peer-wins is C05); (ii) pulls are atomic in the theorem; stale in-flight snapsho
 by the `srand` correspondence stream.
 -/
 import MstVerif.Proofs.SyncN
+import MstVerif.Proofs.PeerWins3
 
 namespace Mst.Props
 open Mst
@@ -51,5 +52,17 @@ theorem C06_live (lvl : K → Nat) (hlvl : ∀ k, lvl k < 255) (hc : HashCfg K V
       (∀ r₁ ∈ rs, ∀ r₂ ∈ rs, r₁.store = r₂.store ∧
         (r₁.tree.genRootHash hc).rootHash = (r₂.tree.genRootHash hc).rootHash) :=
   syncRun_live lvl hlvl hc hnc n ops hw sweeps hs hlen
+
+/-- Scope note (i) as a theorem: under PEER-WINS with three replicas a fair schedule — every ordered
+pair of replicas pulls in every period — never converges: after the three initial writes and any
+number of periods two different values are still present. Hence the convergence clause of the
+property cannot hold for peer-wins with ≥ 3 replicas, whatever the library does; it is proved for
+the join merge (`C06_live`) and, for two replicas, for peer-wins as well (`C05_rounds`). -/
+theorem C06_peerWins_three_replicas_counterexample (n : Nat) :
+    IsSweep 3 pwCycle ∧
+    ∃ rs : List (Replica Nat Nat (List UInt8)),
+      syncRun lvl0 perfectCfg .peerWins (freshReplicas 3) (pwStart ++ (List.replicate n pwCycle).flatten) = .ok rs ∧
+      rs.length = 3 ∧ ∃ r₁ ∈ rs, ∃ r₂ ∈ rs, r₁.store ≠ r₂.store :=
+  ⟨pwCycle_isSweep, peerWins_fair_schedule_never_converges n⟩
 
 end Mst.Props
